@@ -1,5 +1,6 @@
 import LJT.Proofs.SeqHuff
 import LJT.Proofs.SeqInterval
+import LJT.Proofs.SeqScan
 import LJT.Proofs.ProgAC
 import LJT.Proofs.ProgRef
 import LJT.Model.ProgHuff
@@ -242,5 +243,21 @@ theorem sequential_interval_roundtrip (ct : Nat → Option (CDerived × CDerived
     (hd : DiffsOK pred blocks) (he : encodeBlocks ct pred blocks = some bits) :
     decodeBlocks dt pred (blocks.map (·.slot)) (bits ++ rest) = some (blocks, rest) :=
   decodeBlocks_encodeBlocks ct dt blocks pred bits rest hall hd he
+
+
+/-- **A whole sequential Huffman scan round-trips, restart markers included.**  `ivs` are the restart intervals of
+a scan, each the blocks of its MCUs in order; `bitss` their codings by `encodeBlocks` with the DC predictors reset
+to 0 (what `emit_restart` does).  The scan's entropy-coded data - each interval packed MSB first, padded with 1-bits,
+byte-stuffed, the intervals joined by RST0..RST7 in rotation: exactly how Model/T81Enc.lean `scanBytes` (tied byte for
+byte to libjpeg-turbo by `seqbytes` / `seqfile`) builds it - split at the markers and decoded interval by interval
+gives back exactly the blocks.  Any number of intervals, any MCU structure, any valid tables per component. -/
+theorem sequential_scan_roundtrip (ct : Nat → Option (CDerived × CDerived)) (dt : Nat → Option (DDerived × DDerived))
+    (ivs : List (List Blk)) (hne : ivs ≠ []) (bitss : List (List Bool))
+    (hall : ∀ iv ∈ ivs, (∀ b ∈ iv, TabsOK ct dt b.slot ∧ b.ac.length = 63 ∧ ∀ v ∈ b.ac, v.natAbs < 32768) ∧
+      DiffsOK (Array.replicate 4 0) iv)
+    (henc : All2 (fun iv bits => encodeBlocks ct (Array.replicate 4 0) iv = some bits) ivs bitss) :
+    decodeIntervals dt (ivs.map (fun iv => iv.map (·.slot)))
+      (Bits.splitRST (Bits.joinRST (bitss.map Bits.segmentBytes) 0) []) = some ivs :=
+  scan_roundtrip ct dt ivs hne bitss hall henc
 
 end LJT.Props.C03
